@@ -467,16 +467,19 @@ pub fn check_trait<S: Oversize>(c: &Case, ctx: &mut CaseCtx) -> Result<(), Failu
         }
         // ---- a commitment presented to the verifier under a degree bound the key was not trimmed for -----
         12 => {
-            if !S::HAS_BOUNDS || info.any_bound {
+            if !S::HAS_BOUNDS {
                 return Ok(());
             }
-            let enforced: Vec<usize> = info.enforced.clone().unwrap_or_default();
+            let enforced: Vec<usize> = if info.any_bound { (1..=info.supported).collect() } else { info.enforced.clone().unwrap_or_default() };
             if enforced.is_empty() {
                 return Ok(());
             }
-            let d1 = enforced[pick(sel as u16, enforced.len())];
             let top = *enforced.last().unwrap();
-            let foreign: Vec<usize> = (0..=top + 2).filter(|b| !enforced.contains(b)).collect();
+            // made under any enforced bound, or (half of the cases of a scheme that enforces every bound)
+            // under the largest one, where a verifier that clamps an oversized bound would not notice
+            let d1 = if info.any_bound && c.mag % 2 == 0 { top } else { enforced[pick(sel as u16, enforced.len())] };
+            let mut foreign: Vec<usize> = (if info.any_bound { 1 } else { 0 }..=top + 2).filter(|b| !enforced.contains(b)).collect();
+            foreign.extend([info.supported + 1, info.supported + 9, 2 * info.supported + 1, usize::MAX].iter().filter(|b| !enforced.contains(b)));
             if foreign.is_empty() {
                 return Ok(());
             }
